@@ -4,7 +4,10 @@ import json, os, subprocess, sys, time
 HERE = os.path.dirname(os.path.dirname(os.path.abspath(__file__)))
 m = json.load(open(os.path.join(HERE, 'MANIFEST.json')))
 rows = []
+only = [a for a in sys.argv[1:] if a.startswith('C')]
 for c in m['checks']:
+    if only and c['property_id'] not in only:
+        continue
     t0 = time.time()
     cmd = c['thorough_cmd'] if '--thorough' in sys.argv else c['quick_cmd']
     p = subprocess.run(cmd, shell=True, cwd=HERE, capture_output=True, text=True)
